@@ -1,7 +1,7 @@
 (* Single entry point val -> val for every modelled function; used by the extracted
    runner and by the generated in-Coq case files. *)
 From Coq Require Import ZArith List Bool.
-From Gabi Require Import Val ModArith Bytes Der Sha256 HashTool GoSem ParamsDef ZkProof Keys RangeProof NonRev Core CL Prover RangeSound Revocation.
+From Gabi Require Import Val ModArith Bytes Der Sha256 HashTool GoSem ParamsDef ZkProof Keys RangeProof NonRev Core CL Prover RangeSound Revocation NonRevProver.
 Import ListNotations.
 Open Scope Z_scope.
 
@@ -317,6 +317,37 @@ Definition d_hash_equal (v : val) : val := ret (
   | _ => None
   end).
 
+Definition as_nrcommit (v : val) : option nrcommit :=
+  match v with
+  | VL [cu; cr; nu; se; ra] =>
+    do cu <- as_Z cu; do cr <- as_Z cr; do nu <- as_Z nu; do se <- as_pairsZ se; do ra <- as_pairsZ ra;
+    Some (mkNc cu cr nu se ra)
+  | _ => None
+  end.
+
+Definition d_nr_commit (v : val) : val := ret (
+  match v with
+  | VL [pk; u; e; nu; r2; r3; ra; rb; rd; re; rz] =>
+    do pk <- as_pk pk; do u <- as_Z u; do e <- as_Z e; do nu <- as_Z nu; do r2 <- as_Z r2; do r3 <- as_Z r3;
+    do ra <- as_Z ra; do rb <- as_Z rb; do rd <- as_Z rd; do re <- as_Z re; do rz <- as_Z rz;
+    Some (of_outcome (fun lc => VL [of_LZ (fst lc); of_nrcommit_pub (snd lc)]) (new_proof_commit pk u e nu r2 r3 ra rb rd re rz))
+  | _ => None
+  end).
+
+Definition d_nr_refresh (v : val) : val := ret (
+  match v with
+  | VL [pk; c; l; u; nu] =>
+    do pk <- as_pk pk; do c <- as_nrcommit c; do l <- as_LZ l; do u <- as_Z u; do nu <- as_Z nu;
+    Some (of_outcome (fun lc => VL [of_LZ (fst lc); of_nrcommit_pub (snd lc)]) (nr_refresh pk c l u nu))
+  | _ => None
+  end).
+
+Definition d_nr_build (v : val) : val := ret (
+  match v with
+  | VL [c; ch] => do c <- as_nrcommit c; do ch <- as_Z ch; Some (of_outcome (of_map of_oZ) (nr_build_proof c ch))
+  | _ => None
+  end).
+
 Definition dispatch (fn : Z) (v : val) : val :=
   match fn with
   | 1501 => d_hash_commit v
@@ -345,6 +376,9 @@ Definition dispatch (fn : Z) (v : val) : val :=
   | 1003 => d_update_verify v
   | 1004 => d_update_prepend v
   | 1005 => d_hash_equal v
+  | 1101 => d_nr_commit v
+  | 1102 => d_nr_refresh v
+  | 1103 => d_nr_build v
   | 1201 => d_proves_statement v
   | 1202 => d_proven_statement v
   | 1204 => d_range_verify v
